@@ -25,7 +25,7 @@ fn verif_native_macro_witness() {
     std::panic::set_hook(Box::new(|_| {}));
     let mut n = 0;
     let mut bad: Vec<String> = Vec::new();
-    let cases: [(&str, &str, &str); 27] = [
+    let cases: [(&str, &str, &str); 30] = [
         // first matching rule, in textual order
         ("(define-syntax m (syntax-rules () ((m x) 'one) ((m x y) 'two) ((m x ...) 'many)))", "(m 1)", "value one"),
         ("(define-syntax m (syntax-rules () ((m x) 'one) ((m x y) 'two) ((m x ...) 'many)))", "(m 1 2)", "value two"),
@@ -46,6 +46,10 @@ fn verif_native_macro_witness() {
         ("(define-syntax m (syntax-rules (a b) ((m a x) x)))", "(m b 7)", "SyntaxError"),
         ("(define-syntax m (syntax-rules (a b) ((m (a x)) 'inner-a) ((m (b x)) 'inner-b)))", "(m (b 1))", "value inner-b"),
         ("(define-syntax m (syntax-rules (a) ((m a) 'lit) ((m x) 'var)))", "(m 5)", "value var"),
+        // ... also the symbol that is spelled like one of the macro's literals
+        ("(define-syntax m (syntax-rules (x) ((m a) (quote (got a)))))", "(m x)", "value (got x)"),
+        ("(define-syntax m (syntax-rules (x) ((m a) (quote (first a))) ((m _) (quote second))))", "(m x)", "value (first x)"),
+        ("(define-syntax m (syntax-rules (x) ((m a ...) (quote (a ...)))))", "(m 1 x 2)", "value (1 x 2)"),
         // _ and pattern variables match any form
         ("(define-syntax m (syntax-rules () ((m _ x) x)))", "(m (1 2 3) 4)", "value 4"),
         ("(define-syntax m (syntax-rules () ((m _ x) x)))", "(m \"s\" 4)", "value 4"),
